@@ -44,3 +44,18 @@ Theorem C03_member_plan_converges :
   exists v' cur, run_ops v (member_plan g old new) = Some v' /\ lookup g (v_grp v') = Some cur /\ forall x, In x cur <-> In x new.
 Proof. exact member_plan_converges_proved. Qed.
 Print Assumptions C03_member_plan_converges.
+
+(* genUniqRuleNames / genUniqGroupNames (the same code in pkg/panos and pkg/nsx):
+   the search for a free name NAME-i always ends, the new names are pairwise
+   different and none of them is a name of the device *)
+From NA Require Import Panos.Uniq.
+Theorem C03_unique_names :
+  forall a b, NoDup b ->
+    NoDup (gen_uniq a b) /\ List.length (gen_uniq a b) = List.length b /\ forall x, In x (gen_uniq a b) -> smem x a = false.
+Proof.
+  intros a b ND. split; [apply gen_uniq_nodup_proved, ND|]. split; [apply gen_uniq_length_proved | apply gen_uniq_renamed_avoid_device_proved].
+Qed.
+Print Assumptions C03_unique_names.
+Theorem C03_unique_name_search_terminates : forall base used i, exists n, search (S (List.length used)) i base used = Some n.
+Proof. exact search_finds. Qed.
+Print Assumptions C03_unique_name_search_terminates.
